@@ -1254,7 +1254,9 @@ class Database:
             for paramName in params or h5GroupForType.keys():
                 if paramName == "location":
                     # location is special, since it is stored in layout/
-                    data = np.array(layout.location)[objectIndicesInLayout]
+                    data = np.array(
+                        [layout.location[i] for i in objectIndicesInLayout]
+                    )
                 elif paramName in h5GroupForType:
                     dataSet = h5GroupForType[paramName]
                     try:
